@@ -50,7 +50,7 @@ def _gen_cases(rng, tier):
 	# header sections with a field repeated on the wire (each with its own join separator: Cookie '; ', others ', '), other fields in between,
 	# continuation lines; every two-call fragmentation + per octet: a repeated field whose occurrences arrive in different calls
 	rep_names = [b'Cookie', b'cookie', b'Foo', b'Accept', b'Set-Cookie', b'WWW-Authenticate', b'Via']
-	for i in range(60 if tier == 'thorough' else 10):
+	for i in range(60 if tier == 'thorough' else 6):
 		kind = 'server' if i % 2 == 0 else 'client'
 		a, b2 = rng.choice(rep_names), rng.choice(rep_names)
 		lines = [a + b': a=1', b2 + b': x', rng.choice([a, a.upper(), a.lower()]) + b': b=2', b'Other: o', rng.choice([b2, b2.upper()]) + b':y', a + b': c=3']
@@ -62,10 +62,10 @@ def _gen_cases(rng, tier):
 				lines.append(lines.pop(0))
 		head = (b'GET / HTTP/1.1\r\nHost: h\r\n' if kind == 'server' else b'HTTP/1.1 200 OK\r\nContent-Length: 0\r\n')
 		s = head + b'\r\n'.join(lines) + b'\r\n\r\n'
-		cases.append({'k': 'frag', 'kind': kind, 's': s.hex(), 'cuts': [[], list(range(1, len(s)))] + streams.single_cuts(s, None)})
+		cases.append({'k': 'frag', 'kind': kind, 's': s.hex(), 'cuts': [[], list(range(1, len(s)))] + streams.single_cuts(s, None if tier == 'thorough' else 90)})
 	# stray line ends around well-formed messages (before the first start line, between pipelined messages, after the last one): whatever the
 	# machine does with them, it must do the same when CR and LF arrive in different calls
-	for i in range(40 if tier == 'thorough' else 8):
+	for i in range(40 if tier == 'thorough' else 4):
 		kind = 'server' if i % 2 == 0 else 'client'
 		gts, sers = streams.gen_wf(rng, kind, n=2)
 		sers = [x for x in sers if len(x) < 220] or [b'GET / HTTP/1.1\r\nHost: h\r\n\r\n' if kind == 'server' else b'HTTP/1.1 200 OK\r\nContent-Length: 0\r\n\r\n']
@@ -79,7 +79,7 @@ def _gen_cases(rng, tier):
 			s = b''.join(sers) + stray
 		else:
 			s = stray + sers[0] + stray + b''.join(sers[1:]) + stray
-		cases.append({'k': 'frag', 'kind': kind, 's': s.hex(), 'cuts': [[], list(range(1, len(s)))] + streams.single_cuts(s, None if tier == 'thorough' else 150)})
+		cases.append({'k': 'frag', 'kind': kind, 's': s.hex(), 'cuts': [[], list(range(1, len(s)))] + streams.single_cuts(s, None if tier == 'thorough' else 90)})
 	# directed error paths (measured gaps of the random streams: see impl_statement_coverage in the evidence): the error must not depend on the cut
 	import gzip
 	gz = gzip.compress(b'hello world', mtime=0)
@@ -97,31 +97,33 @@ def _gen_cases(rng, tier):
 		('client-connect', b'HTTP/1.1 200 OK\r\nContent-Length: 3\r\nTransfer-Encoding: chunked\r\n\r\nHTTP/1.1 407 Auth\r\nContent-Length: 2\r\n\r\nabHTTP/1.1 200 OK\r\n\r\n'),
 	]
 	for kind, s in directed:
-		cases.append({'k': 'frag', 'kind': kind, 's': s.hex(), 'cuts': [[], list(range(1, len(s)))] + streams.single_cuts(s, None if tier == 'thorough' else 100)})
+		cases.append({'k': 'frag', 'kind': kind, 's': s.hex(), 'cuts': [[], list(range(1, len(s)))] + streams.single_cuts(s, None if tier == 'thorough' else 50)})
 	# header lines and folded fields at boundary lengths (limits an implementation might have or get: 255/256, 4 kB, 8190..8192, 16 kB):
 	# whole, cut just before / inside / after the line end, and in coarse pieces
 	lengths = [255, 256, 1023, 1024, 4095, 4096, 8188, 8189, 8190, 8191, 8192] + ([16383, 16384, 65535, 65536] if tier == 'thorough' else [])
 	if tier != 'thorough':
-		lengths = sorted(set(rng.sample(lengths, 4) + [8190, 8191]))
+		lengths = sorted(set(rng.sample([255, 256, 1023, 1024], 2) + rng.sample([4095, 4096, 8188, 8189, 8192], 1) + [8190, 8191]))
 	for L in lengths:
 		for kind, head, tail in (('server', b'GET / HTTP/1.1\r\nHost: h\r\n', b'GET /2 HTTP/1.1\r\nHost: h\r\n\r\n'), ('client', b'HTTP/1.1 200 OK\r\nContent-Length: 0\r\n', b'HTTP/1.1 204 No Content\r\n\r\n')):
 			line = b'X-Long: ' + b'a' * (L - 8)
 			s = head + line + b'\r\n\r\n' + tail
 			e = len(head) + L
-			cuts = [[], [e - 1], [e], [e + 1], [e + 2], [e + 3], [e + 1, e + 3], list(range(1000, len(s), 1000))]
+			cuts = [[], [e - 1], [e], [e + 1], [e + 2], [e + 3], [e + 1, e + 3], list(range(1000, len(s), 1000))] if tier == 'thorough' else [[], [e], [e + 1], [e + 2], list(range(2000, len(s), 2000))]
 			cases.append({'k': 'frag', 'kind': kind, 's': s.hex(), 'cuts': [c for c in cuts if all(0 < x < len(s) for x in c)]})
 			# the same total length as a folded field: physical lines of 60 octets
 			n = max(1, (L - 8) // 62)
 			folded = b'X-Fold: ' + b'\r\n '.join([b'b' * 60] * n)
 			s = head + folded + b'\r\n\r\n' + tail
 			e = len(head) + len(folded)
-			cuts = [[], [e], [e + 1], [e + 2], [e + 3], list(range(997, len(s), 997))]
+			cuts = [[], [e], [e + 1], [e + 2], [e + 3], list(range(997, len(s), 997))] if tier == 'thorough' else [[], [e + 1], list(range(1997, len(s), 1997))]
+			if tier != 'thorough' and L not in (256, 1024, 8190, 8191) and kind == 'client':
+				continue
 			cases.append({'k': 'frag', 'kind': kind, 's': s.hex(), 'cuts': [c for c in cuts if all(0 < x < len(s) for x in c)]})
 	# a request that asks for the connection to be closed, followed by more octets (pipelined request, garbage, truncated request)
 	for follow in (b'GET /2 HTTP/1.1\r\nHost: h\r\n\r\n', b'GARBAGE\r\n\r\n', b'GET /3 HTTP/1.1\r\nHo', b'POST /4 HTTP/1.1\r\nHost: h\r\nContent-Length: 3\r\n\r\nabc'):
 		for first in (b'GET / HTTP/1.1\r\nHost: h\r\nConnection: close\r\n\r\n', b'POST / HTTP/1.1\r\nHost: h\r\nconnection: Close\r\nContent-Length: 2\r\n\r\nab', b'GET / HTTP/1.0\r\n\r\n'):
 			s = first + follow
-			cases.append({'k': 'frag', 'kind': 'server', 's': s.hex(), 'cuts': [[], list(range(1, len(s)))] + streams.single_cuts(s, None if tier == 'thorough' else 60)})
+			cases.append({'k': 'frag', 'kind': 'server', 's': s.hex(), 'cuts': [[], list(range(1, len(s)))] + streams.single_cuts(s, None if tier == 'thorough' else 25)})
 	if tier == 'thorough':
 		# all 2^(n-1) fragmentations of short streams over a message-skeleton alphabet
 		skel = [b'GET / HTTP/1.1\r\n', b'Host:x\r\n', b'\r\n', b'A:b\r\n', b'Content-Length:2\r\n', b'ab', b'Transfer-Encoding:chunked\r\n', b'1\r\nz\r\n', b'0\r\n\r\n', b'HTTP/1.1 200 OK\r\n', b'\r', b'\n', b' c\r\n']
